@@ -1050,7 +1050,15 @@ fn main() {
 
     // ---- Part B
     let transitions = vec![Call::CollClose, Call::DbCloseCollection, Call::DbDeleteCollection, Call::CollReadOnly, Call::DbReadOnly, Call::DbClose];
-    let op_alpha = vec![Call::Op(Op::Add(3)), Call::Op(Op::Update(1, 0)), Call::Op(Op::Flush), Call::Op(Op::Remove(2)), Call::Op(Op::SaveExt(1))];
+    let op_alpha = vec![
+        Call::Op(Op::Add(3)),
+        Call::Op(Op::Update(1, 0)),
+        Call::Op(Op::Flush),
+        Call::Op(Op::Remove(2)),
+        Call::Op(Op::SaveExt(1)),
+        Call::Op(Op::CompactBtree),
+        Call::Op(Op::CompactBm25),
+    ];
     let plan: Vec<(usize, u32)> = run.tier.pick(vec![(1, 2), (2, 1)], vec![(1, 3), (2, 2), (3, 1), (2, 3), (3, 2), (1, 4)]);
     let mut completed = Vec::new();
     'plan: for (k, bound) in plan {
